@@ -378,8 +378,10 @@ def validate_all(work, tracefiles, invariants, chunks=4, module="TraceProps.tla"
         r = validate_trace(work, outs[i], invariants, module=module, name=nm)
         r["file"] = outs[i]
         return r
-    # (at most 6 validations at a time: a TLC that deserialises a large chunk takes gigabytes, and twelve of them at once were killed
-    #  for memory in a 16 GB control group)
+    # (at most 6 validations at a time: a TLC that deserialises a large chunk takes 6-12 GB. With twelve at once and other jobs on
+    #  the machine, the kernel's GLOBAL out-of-memory killer ended three of them (dmesg: constraint=CONSTRAINT_NONE, global_oom;
+    #  62 GB machine) and the check came back undecided. An earlier version of this comment blamed a 16 GB control group; the
+    #  kernel log shows no control-group kill at any time.)
     with concurrent.futures.ThreadPoolExecutor(max_workers=min(chunks, 6)) as ex:
         results = list(ex.map(one, range(chunks)))
     for r in results:
